@@ -180,6 +180,8 @@ class LoopSummary(object):
         self.entry = {}         # {var: value on loop entry}
         self.test = None
         self.breaks = []        # conditions under which the body breaks
+        self.env_pre = None     # environment at the start of the body (carried variables = pre symbols)
+        self.env_post = None
 
 
 class Evaluator(object):
@@ -595,7 +597,9 @@ class Evaluator(object):
             tgt_names = [n.id for n in ast.walk(st.target) if isinstance(n, ast.Name)]
             for n in tgt_names:
                 body_env[n] = Rat.sym('%s@L%d' % (n, idx))
+        summ.env_pre = _copy_env(body_env)
         out = self.exec_block(st.body, body_env, func)
+        summ.env_post = out.env
         if out.env is not None:
             for v in assigned:
                 if v in out.env:
@@ -1053,6 +1057,11 @@ class Evaluator(object):
                 return self.construct(t, args, kwargs, node)
             if isinstance(t, Ext):
                 return self.ext_call(t.name, args, kwargs, node)
+        if isinstance(fv, Rat):
+            a = _single_atom(fv)
+            if a is not None and a.kind == 'sym' and '.' in a.name:
+                base, attr = a.name.rsplit('.', 1)
+                return alg.opaque('method:' + attr, (Rat.sym(base),) + tuple(argkey(x) for x in args))
         return self.unknown('call of %s' % type(fv).__name__, node)
 
     def bind_values(self, f, args, kwargs, node, drop_self=False):
@@ -1223,6 +1232,14 @@ class Evaluator(object):
                 return DateV(*ks)
         if name == 'warnings.warn':
             return NONE
+        if name in ('decimal.Decimal', 'fractions.Fraction') and len(a) == 1:
+            if isinstance(a[0], Str):
+                try:
+                    return C(Fraction(a[0].s))
+                except Exception:
+                    pass
+            if isinstance(a[0], Rat):
+                return a[0]
         return alg.opaque('ext:' + name, tuple(argkey(x) for x in a) + tuple('%s=%r' % (k, argkey(v)) for k, v in sorted(kwargs.items())))
 
     def ext_method(self, obj, attr, args, kwargs, node):
